@@ -2179,8 +2179,14 @@ func ruleScanIndex(c *Ctx) {
 				self := false
 				for i, e := range phi.Edges {
 					if i < len(hb.Preds) && reachesBlock(hb, hb.Preds[i]) {
-						if bo, ok := stripConv(e).(*ssa.BinOp); ok && (bo.Op == token.ADD || bo.Op == token.SUB) && (stripConv(bo.X) == ssa.Value(phi) || stripConv(bo.Y) == ssa.Value(phi)) {
-							self = true
+						// a step by a constant (i++, i += 2); a step computed from a search in the rest of the
+						// text (start += strings.IndexByte(s[start:], c) + 1) is bounded by construction
+						if bo, ok := stripConv(e).(*ssa.BinOp); ok && (bo.Op == token.ADD || bo.Op == token.SUB) {
+							_, cx := bo.X.(*ssa.Const)
+							_, cy := bo.Y.(*ssa.Const)
+							if (stripConv(bo.X) == ssa.Value(phi) && cy) || (stripConv(bo.Y) == ssa.Value(phi) && cx) {
+								self = true
+							}
 						}
 					}
 				}
@@ -2210,9 +2216,42 @@ func ruleScanIndex(c *Ctx) {
 						}
 					}
 				}
+				// a rotated loop (for i := range n; a bottom-tested loop) compares the counter on the edges
+				// into the header instead of in a block that dominates the body: every edge into the header
+				// is taken on the outcome of a comparison of the value it carries
+				edgeGuarded := len(hb.Preds) > 0
+				for i, e := range phi.Edges {
+					if i >= len(hb.Preds) {
+						edgeGuarded = false
+						break
+					}
+					ok := false
+					if ifi, isIf := lastInstr(hb.Preds[i]).(*ssa.If); isIf {
+						for w := range backSlice(ifi.Cond) {
+							bo, isBo := w.(*ssa.BinOp)
+							if !isBo || !isCmp[bo.Op] {
+								continue
+							}
+							for _, opnd := range []ssa.Value{bo.X, bo.Y} {
+								if stripConv(opnd) == stripConv(e) || derived(opnd, phi) {
+									ok = true
+								}
+								if c1, isC1 := stripConv(opnd).(*ssa.Const); isC1 {
+									if c2, isC2 := stripConv(e).(*ssa.Const); isC2 && c1.Value != nil && c2.Value != nil && c1.Value.ExactString() == c2.Value.ExactString() {
+										ok = true
+									}
+								}
+							}
+						}
+					}
+					if !ok {
+						edgeGuarded = false
+						break
+					}
+				}
 				for k, u := range uses {
 					n++
-					tested := false
+					tested := edgeGuarded
 					var conds []ctrlCond
 					conds = append(conds, controlCondsPol(u.Block())...)
 					for _, cc := range conds {
